@@ -7,5 +7,10 @@ i=d.find(marker)
 if i>=0: d=d[:i]
 d=d.rstrip("\n")+"\n\n"
 sec=open(V+"/tools/design7_head.md").read()+open(V+"/seeded/RESULTS.md").read()+open(V+"/tools/design7_tail.md").read()
+import os
+if os.path.exists(V+"/tools/design7_benign.md"):
+    sec+=open(V+"/tools/design7_benign.md").read()
+    if os.path.exists(V+"/benign/RESULTS.md"):
+        sec+="\n"+open(V+"/benign/RESULTS.md").read().replace("# Behaviour-preserving","#### Behaviour-preserving")
 open(V+"/DESIGN.md","w").write(d+sec)
 print("DESIGN.md section 7 regenerated")
